@@ -206,6 +206,7 @@ fn comb_chunk(d: &mut Draw, t: &Ref, cx: &mut Ctx, cls: &mut BTreeSet<String>, t
         3,  // nested if
         1,  // incomplete, covered by a late write
         if cx.own.is_empty() { 0 } else { 2 }, // read in one arm, written in the other
+        if cx.own.is_empty() || w < 2 { 0 } else { 1 }, // low bit written, all read, all written
     ]);
     match k {
         0 => {
@@ -433,6 +434,29 @@ fn comb_chunk(d: &mut Draw, t: &Ref, cx: &mut Ctx, cls: &mut BTreeSet<String>, t
                 t: vec![x],
                 e: Some(vec![y]),
             }]
+        }
+        14 => {
+            cls.insert("comb:part-written-all-read-all-written".into());
+            let sink = d.pick(&cx.own).clone();
+            let sw = sink.width(cx.vars);
+            let rd = if w >= sw {
+                // a slice that contains the not yet written top bit
+                Expr::Rd(sub_ref(t, w - sw, sw))
+            } else {
+                Expr::Cat(vec![Expr::K(sw - w, 0), Expr::Rd(t.clone())])
+            };
+            let first = asg(d, &sub_ref(t, 0, 1), cx);
+            let low_too = Stmt::Asg(sink.clone(), {
+                // the sink also reads the already written low bit
+                let lowbit = Expr::Rd(sub_ref(t, 0, 1));
+                if sw == 1 {
+                    Expr::Bin('&', Box::new(lowbit), Box::new(Expr::Rd(sub_ref(t, w - 1, 1))))
+                } else {
+                    Expr::Bin('^', Box::new(rd), Box::new(Expr::Cat(vec![Expr::K(sw - 1, 0), lowbit])))
+                }
+            });
+            let last = asg(d, t, cx);
+            vec![first, low_too, last]
         }
         _ => {
             cls.insert("comb:incomplete-then-late-cover".into());
